@@ -20,7 +20,7 @@ def _sample(gen, limit_quick, limit_thorough):
 
 
 class Cross(Prop):
-    own_gens = [gen_walk.gen_walk_corpus, gen_walk.gen_walk_corrupt, gen_walk.gen_walk_generated, gen_walk.gen_align_stress, gen_pure.gen_fmt_cstr]
+    own_gens = [gen_walk.gen_walk_corpus, gen_walk.gen_walk_corrupt, gen_walk.gen_walk_generated, gen_walk.gen_align_stress, gen_pure.gen_fmt_cstr, gen_walk.gen_shared_dag]
 
     @property
     def gens(self):
